@@ -1,6 +1,7 @@
 package main
 
 import (
+	"bytes"
 	"encoding/json"
 	"fmt"
 	"log/slog"
@@ -408,6 +409,39 @@ func validateEncoder(c *child.Ctx) {
 }
 
 func monC04(c *child.Ctx, replay json.RawMessage) {
+	if replay != nil && hasKey(replay, "frames_back_to_back_in_one_buffer") {
+		// relational replay: each frame decoded from its sub-slice of the buffer must
+		// give what it gives from a slice of its own, and leave the buffer alone
+		var kc struct {
+			Buf string `json:"frames_back_to_back_in_one_buffer"`
+		}
+		json.Unmarshal(replay, &kc)
+		c.Begin(replay)
+		buf := unhex(kc.Buf)
+		whole := append([]byte(nil), buf...)
+		for off := 0; off+6 <= len(buf) && buf[off] == 0xd3; {
+			n := int(buf[off+1]&3)<<8 | int(buf[off+2])
+			if off+n+6 > len(buf) {
+				break
+			}
+			sub := buf[off : off+n+6]
+			own := append([]byte(nil), whole[off:off+n+6]...)
+			t := ref.TypeOf(own)
+			var a, b *decoded
+			func() {
+				defer func() { recover() }()
+				a, _, _ = decodeMSMBothWays(sub, ref.IsMSM7(t), slog.LevelInfo)
+				b, _, _ = decodeMSMBothWays(own, ref.IsMSM7(t), slog.LevelInfo)
+			}()
+			if (a == nil) != (b == nil) || !bytes.Equal(buf, whole) {
+				c.Violate("decode-mismatch", fmt.Sprintf("the frame at offset %d decodes differently from a sub-slice of the buffer than from a slice of its own, or decoding changed the buffer: %s", off, firstDiff(buf, whole)), replay)
+				break
+			}
+			off += n + 6
+		}
+		c.Eval(1, true)
+		return
+	}
 	if replay != nil {
 		var k msmCase
 		json.Unmarshal(replay, &k)
@@ -416,8 +450,121 @@ func monC04(c *child.Ctx, replay json.RawMessage) {
 		c.Eval(1, true)
 		return
 	}
-	validateEncoder(c)
 	r := ref.NewRand(c.Seed*217645199 + uint64(c.Batch)*236887691 + 4)
+	concurrentDecodes := func() {
+		// several receivers' messages decoded at the same time by different goroutines
+		// (the proxy's connections, the fan-out's consumers): each result is that of its
+		// own message
+		nc := c.Share(c.Pick(24000, 400000))
+		var wg sync.WaitGroup
+		var bad atomic.Value
+		for g := 0; g < 4; g++ {
+			wg.Add(1)
+			go func(g int) {
+				defer wg.Done()
+				rr := ref.NewRand(r.Uint64() + uint64(g)*104729)
+				for i := 0; i < nc/4 && bad.Load() == nil; i++ {
+					m := gen.RandMSM(rr, gen.MSMOpts{Type: ref.MSMTypes[(i+g)%len(ref.MSMTypes)], AllowNoCell: true})
+					m.PadBytes = rr.Intn(3)
+					p := ref.EncodeMSM(m)
+					if len(p) > 1023 {
+						continue
+					}
+					kc := msmCase{M: m, Pads: []int{m.PadBytes}}
+					var why string
+					func() {
+						defer func() {
+							if x := recover(); x != nil {
+								why = fmt.Sprintf("panic: %v", x)
+							}
+						}()
+						direct, _, errText := decodeMSMBothWays(ref.Frame(p), ref.IsMSM7(m.Type), slog.LevelInfo)
+						if direct == nil {
+							why = "well-formed message rejected: " + errText
+							return
+						}
+						why = compareMSM(m, direct)
+					}()
+					if why != "" {
+						cj, _ := json.Marshal(kc)
+						bad.Store([2]string{"decoded while three other goroutines were decoding their own messages: " + why, string(cj)})
+					}
+					if i%256 == 0 {
+						tick()
+					}
+				}
+			}(g)
+		}
+		wg.Wait()
+		if v := bad.Load(); v != nil {
+			c.Violate("decode-mismatch", v.([2]string)[0], []byte(v.([2]string)[1]))
+		}
+		c.Count("concurrent_decodes_compared", int64(nc))
+		c.EvalN(1)
+	}
+	// frames that lie one behind the other in one read buffer, each handed to the decoder
+	// as a sub-slice: decoding one must leave the bytes behind it alone
+	backToBack := func() {
+		nb := c.Share(c.Pick(8000, 160000))
+		for i := 0; i < nb && c.NViolations() == 0; i++ {
+			var ms []*ref.MSM
+			var frames [][]byte
+			var buf []byte
+			for j := r.Range(2, 4); j > 0; j-- {
+				m := gen.RandMSM(r, gen.MSMOpts{Type: ref.MSMTypes[r.Intn(len(ref.MSMTypes))], AllowNoCell: true})
+				m.PadBytes = []int{0, 0, 1, 2, 7}[r.Intn(5)]
+				p := ref.EncodeMSM(m)
+				if len(p) > 1023 {
+					continue
+				}
+				f := ref.Frame(p)
+				ms = append(ms, m)
+				frames = append(frames, f)
+				buf = append(buf, f...)
+			}
+			buf = append(buf, r.Bytes(16)...) // and something after the last frame
+			whole := append([]byte(nil), buf...)
+			kc := map[string]interface{}{"frames_back_to_back_in_one_buffer": hexs(whole)}
+			cj, _ := json.Marshal(kc)
+			if i%128 == 0 {
+				c.Begin(cj)
+			}
+			off := 0
+			for j, f := range frames {
+				sub := buf[off : off+len(f)] // capacity reaches to the end of the buffer
+				var why string
+				func() {
+					defer func() {
+						if x := recover(); x != nil {
+							why = fmt.Sprintf("panic: %v", x)
+						}
+					}()
+					direct, _, errText := decodeMSMBothWays(sub, ref.IsMSM7(ms[j].Type), slog.LevelInfo)
+					if direct == nil {
+						why = "well-formed message rejected: " + errText
+						return
+					}
+					why = compareMSM(ms[j], direct)
+				}()
+				if why != "" {
+					c.Violate("decode-mismatch", fmt.Sprintf("frame %d of %d lying back to back in one buffer (each decoded from its own sub-slice, in order): %s", j+1, len(frames), why), cj)
+					break
+				}
+				if !bytes.Equal(buf, whole) {
+					c.Violate("decode-mismatch", fmt.Sprintf("decoding frame %d of %d from a sub-slice of a buffer changed the buffer: %s", j+1, len(frames), firstDiff(buf, whole)), cj)
+					break
+				}
+				off += len(f)
+			}
+			c.Count("frames_decoded_back_to_back", int64(len(frames)))
+			c.EvalN(1)
+		}
+	}
+	if c.Batch%2 == 1 {
+		// in half of the processes the very first decodes happen side by side
+		concurrentDecodes()
+	}
+	validateEncoder(c)
 	n := c.Share(c.Pick(40000, 600000))
 	npads := c.Pick(4, 8)
 	for i := 0; i < n; i++ {
@@ -463,53 +610,8 @@ func monC04(c *child.Ctx, replay json.RawMessage) {
 			c.Sample(k)
 		}
 	}
-	// several receivers' messages decoded at the same time by different goroutines
-	// (the proxy's connections, the fan-out's consumers): each result is that of its
-	// own message
-	nc := c.Share(c.Pick(24000, 400000))
-	var wg sync.WaitGroup
-	var bad atomic.Value
-	for g := 0; g < 4; g++ {
-		wg.Add(1)
-		go func(g int) {
-			defer wg.Done()
-			rr := ref.NewRand(r.Uint64() + uint64(g)*104729)
-			for i := 0; i < nc/4 && bad.Load() == nil; i++ {
-				m := gen.RandMSM(rr, gen.MSMOpts{Type: ref.MSMTypes[(i+g)%len(ref.MSMTypes)], AllowNoCell: true})
-				m.PadBytes = rr.Intn(3)
-				p := ref.EncodeMSM(m)
-				if len(p) > 1023 {
-					continue
-				}
-				kc := msmCase{M: m, Pads: []int{m.PadBytes}}
-				var why string
-				func() {
-					defer func() {
-						if x := recover(); x != nil {
-							why = fmt.Sprintf("panic: %v", x)
-						}
-					}()
-					direct, _, errText := decodeMSMBothWays(ref.Frame(p), ref.IsMSM7(m.Type), slog.LevelInfo)
-					if direct == nil {
-						why = "well-formed message rejected: " + errText
-						return
-					}
-					why = compareMSM(m, direct)
-				}()
-				if why != "" {
-					cj, _ := json.Marshal(kc)
-					bad.Store([2]string{"decoded while three other goroutines were decoding their own messages: " + why, string(cj)})
-				}
-				if i%256 == 0 {
-					tick()
-				}
-			}
-		}(g)
+	if c.Batch%2 == 0 {
+		concurrentDecodes()
 	}
-	wg.Wait()
-	if v := bad.Load(); v != nil {
-		c.Violate("decode-mismatch", v.([2]string)[0], []byte(v.([2]string)[1]))
-	}
-	c.Count("concurrent_decodes_compared", int64(nc))
-	c.EvalN(1)
+	backToBack()
 }
